@@ -48,12 +48,26 @@ class TLCResult:
 
     def prints(self, tag=None):
         """PrintT outputs that are TLA+ tuples starting with a string tag: <<"TAG", ...>>."""
-        res = []
+        # TLC wraps values wider than 80 columns over several lines: join until the brackets balance
+        res, buf, depth = [], None, 0
         for line in self.out.splitlines():
             line = line.strip()
-            if line.startswith("<<\"") and line.endswith(">>"):
-                if tag is None or line.startswith("<<\"%s\"" % tag):
-                    res.append(parse_tla_value(line))
+            if buf is None:
+                if not re.match(r'<<\s*"', line):      # wrapped tuples start with '<< "TAG",'
+                    continue
+                buf, depth = "", 0
+            buf += (" " if buf else "") + line
+            depth += line.count("<<") - line.count(">>")
+            if depth <= 0:
+                buf = re.sub(r'^<<\s+"', '<<"', buf)
+                if tag is None or buf.startswith("<<\"%s\"" % tag):
+                    try:
+                        res.append(parse_tla_value(buf))
+                    except Exception:
+                        pass
+                buf = None
+            elif len(buf) > 200000:
+                buf = None
         return res
 
     def clean(self):
@@ -345,6 +359,9 @@ def run_cases(spec, cases, shards=8, timeout=1800, extra_env=None):
         done = res.prints("DONE")
         if not res.clean() or not done or done[-1][1] != len(part):
             raise TLCError("case run of %s did not complete:\n%s" % (spec, res.out[-5000:]))
+        if res.out.count('"FAIL"') != len(res.prints("FAIL")):
+            raise TLCError("could not parse every FAIL line of %s (%d printed, %d parsed)" % (
+                spec, res.out.count('"FAIL"'), len(res.prints("FAIL"))))
         return part, res
 
     fails, infos, results = {}, {}, []
